@@ -69,6 +69,38 @@ pub fn hammer(bytes: &[u8], flush_end: bool, step: usize, cov: &mut Cov) -> (Opt
         }
         cov.hit("reached.parse_words");
     }
+    // 2b. a well-behaved consumer may itself parse: re-enter the parser from inside a callback
+    {
+        struct Reenter<'a> {
+            inner: &'a [u8],
+            at: usize,
+            seen: usize,
+        }
+        impl<'a> rspirv::binary::Consumer for Reenter<'a> {
+            fn initialize(&mut self) -> rspirv::binary::ParseAction {
+                rspirv::binary::ParseAction::Continue
+            }
+            fn finalize(&mut self) -> rspirv::binary::ParseAction {
+                rspirv::binary::ParseAction::Continue
+            }
+            fn consume_header(&mut self, _h: dr::ModuleHeader) -> rspirv::binary::ParseAction {
+                rspirv::binary::ParseAction::Continue
+            }
+            fn consume_instruction(&mut self, _i: dr::Instruction) -> rspirv::binary::ParseAction {
+                if self.seen == self.at {
+                    let _ = dr::load_bytes(self.inner);
+                    let mut c = Counting(0);
+                    let _ = parse_bytes(self.inner, &mut c);
+                }
+                self.seen += 1;
+                rspirv::binary::ParseAction::Continue
+            }
+        }
+        let mut r = Reenter { inner: gb.bytes(), at: bytes.len() % 3, seen: 0 };
+        if let Err(pi) = guarded(|| parse_bytes(gb.bytes(), &mut r)) {
+            return (Some(stage_violation("parse_reentered_from_callback", &pi, step)), false);
+        }
+    }
     // 3. load
     let module = match guarded(|| dr::load_bytes(gb.bytes())) {
         Err(pi) => return (Some(stage_violation("load_bytes", &pi, step)), false),
@@ -79,6 +111,15 @@ pub fn hammer(bytes: &[u8], flush_end: bool, step: usize, cov: &mut Cov) -> (Opt
     // 4. any accepted module can be assembled and disassembled
     if let Err(pi) = guarded(|| module.assemble()) {
         return (Some(stage_violation("assemble", &pi, step)), true);
+    }
+    // assembling INTO a vector that already holds data (modules concatenated into one buffer)
+    if let Err(pi) = guarded(|| {
+        let mut v: Vec<u32> = vec![0xABCD_EF01; bytes.len() / 2 + 3];
+        let before = v.len();
+        module.assemble_into(&mut v);
+        assert!(v.len() >= before, "assemble_into shrank the vector");
+    }) {
+        return (Some(stage_violation("assemble_into_prefilled", &pi, step)), true);
     }
     if let Err(pi) = guarded(|| module.disassemble()) {
         return (Some(stage_violation("disassemble_module", &pi, step)), true);
@@ -224,6 +265,7 @@ impl Property for C04 {
         } else {
             let mut cfg = ProdCfg::parser_default(rng);
             cfg.max_insts = cfg.max_insts.max(2);
+            cfg.giant = true;
             let mut stream = gen_stream(rng, cfg);
             // the spots the property names: OpSpecConstantOp naming any opcode, OpConstant with undeclared type,
             // strings right before a too-large word count
@@ -304,7 +346,7 @@ impl Property for C04 {
             source,
             faults,
             reuse,
-            sweep_trunc: rng.chance(1, 30),
+            sweep_trunc: nwords < 2000 && rng.chance(1, 30),
             flush_end: rng.chance(3, 4),
             reqs,
         }
@@ -415,7 +457,15 @@ impl Property for C04 {
         match &t.source {
             Source::Stream(st) => {
                 let n = st.insts.len();
-                for j in (0..n).rev() {
+                for (a, b) in shrink_chunks(n) {
+                    let mut c = t.clone();
+                    if let Source::Stream(s2) = &mut c.source {
+                        s2.insts.drain(a..b);
+                    }
+                    c.faults.clear();
+                    out.push(c);
+                }
+                for j in shrink_indices(n) {
                     let mut c = t.clone();
                     if let Source::Stream(s2) = &mut c.source {
                         s2.insts.remove(j);
